@@ -317,7 +317,11 @@ def build(sid, seq, parsed, cls):
         lines.append(line)
         lines.append('dump 0')
         checks.append((len(lines) - 1, (len(lines) - 2, rc), st.dump()))
-    return Scn(sid, lines, {'class': cls, 'checks': checks, 'mixed': ok > 0 and fail > 0, 'seq': seq, 'parsed': parsed})
+    # observed through the by-name getters too (every option, indices beyond the end, a wrong kind, the short forms)
+    lastdump = len(lines) - 1
+    if (cls == 'random' and len(seq) % 2) or (cls != 'random' and sum(seq) % 6 == 0):
+        lines += gen.getter_sweep(SCHEMA, maxidx=2)
+    return Scn(sid, lines, {'class': cls, 'checks': checks, 'mixed': ok > 0 and fail > 0, 'seq': seq, 'parsed': parsed, 'lastdump': lastdump})
 
 
 def generate(rng, tier):
@@ -372,4 +376,7 @@ def oracle(scn, il):
             out.append(('state:' + what.split()[0], '%s: after `%s` the tree is\n  %s\nthe abstract store is\n  %s' % (
                 scn.id, what, mask(body[di])[5:][:1200], want[:1200])))
             break
+    ld = scn.meta.get('lastdump')
+    if not out and ld is not None and ld < len(body) and body[ld].startswith('dump ('):
+        out += gen.check_getters(scn, body, gen.dump_tree(body[ld]), SCHEMA)
     return out
